@@ -41,6 +41,9 @@ def _worker_verify(job):
            'assumptions': [], 'trusted_used': [], 'inlined': [], 'vacuity': [], 'used': []}
     try:
         import z3
+        # a run-away query ends as an error of this worker (z3's own accounting; an address-space rlimit makes z3 give up
+        # on ordinary queries and is not used).  The parent additionally watches the resident size of its workers.
+        z3.set_param('memory_max_size', int(float(os.environ.get('VERIF_Z3_MEM_MB', '6000'))))
         from pyvc.types import Outside
         import contracts
         v = contracts.make_verifier(seed=seed, timeout_ms=timeout_ms)
@@ -83,6 +86,63 @@ def _worker_verify(job):
         out['crash'] = traceback.format_exc()
     out['wall'] = round(time.time() - t0, 3)
     return out
+
+
+def _lost(job, why):
+    return {'kind': job[0], 'name': job[1], 'obligations': [], 'outside': None, 'crash': why, 'info': None,
+            'assumptions': [], 'trusted_used': [], 'inlined': [], 'vacuity': [], 'used': [], 'wall': 0.0}
+
+
+def _run_jobs(jobs, nworkers, ctx):
+    """run the verification jobs in worker processes; a worker that dies (e.g. killed for its memory use) must neither hang
+    the check nor take the other jobs with it: the jobs that were lost are run again, each in a process of its own, and the
+    one that kills its process is reported as a checker problem (undecided), never as a verdict"""
+    from concurrent.futures import ProcessPoolExecutor, as_completed
+    from concurrent.futures.process import BrokenProcessPool
+    import threading
+    results = {}
+    pending = list(enumerate(jobs))
+    limit_kb = int(float(os.environ.get('VERIF_WORKER_RSS_GB', '10')) * 2 ** 20)
+    stop = threading.Event()
+
+    def watch(ex_):
+        # a worker whose resident memory runs away is killed (its job is then reported as undecided) before the kernel's
+        # out-of-memory killer picks a victim of its own choosing
+        while not stop.wait(2.0):
+            for pid in list(getattr(ex_, '_processes', {}) or {}):
+                try:
+                    with open('/proc/%d/statm' % pid) as fh:
+                        rss_kb = int(fh.read().split()[1]) * (os.sysconf('SC_PAGE_SIZE') // 1024)
+                    if rss_kb > limit_kb:
+                        os.kill(pid, 9)
+                except Exception:
+                    pass
+    try:
+        with ProcessPoolExecutor(max_workers=min(nworkers, len(pending)), mp_context=ctx) as ex:
+            threading.Thread(target=watch, args=(ex,), daemon=True).start()
+            futs = {ex.submit(_worker_verify, j): k for k, j in pending}
+            for f in as_completed(futs):
+                try:
+                    results[futs[f]] = f.result()
+                except BrokenProcessPool:
+                    pass
+                except Exception as e:
+                    results[futs[f]] = _lost(jobs[futs[f]], "worker failed: %r" % (e,))
+    except BrokenProcessPool:
+        pass
+    for k, j in pending:
+        if k in results:
+            continue
+        try:
+            with ProcessPoolExecutor(max_workers=1, mp_context=ctx) as ex:
+                threading.Thread(target=watch, args=(ex,), daemon=True).start()
+                results[k] = ex.submit(_worker_verify, j).result()
+        except BrokenProcessPool:
+            results[k] = _lost(j, "worker process died while verifying %s (killed, e.g. for its memory use); undecided" % j[1])
+        except Exception as e:
+            results[k] = _lost(j, "worker failed: %r" % (e,))
+    stop.set()
+    return [results[k] for k, _j in pending]
 
 
 def _worker_native(job):
@@ -145,8 +205,7 @@ def main(argv=None):
     closure_added = []
     ctx = mp.get_context('fork')
     while jobs:
-        with ctx.Pool(min(a.jobs, len(jobs))) as pool:
-            batch = pool.map(_worker_verify, jobs, chunksize=1)
+        batch = _run_jobs(jobs, a.jobs, ctx)
         results.extend(batch)
         done |= {j[1] for j in jobs}
         # modularity: a caller was checked against its callees' CONTRACTS, so every contract it relied on must itself be
